@@ -13,8 +13,11 @@ EXTENDS Annotate, IOUtils, Json
 Lines == ndJsonDeserialize(IOEnv.REC)
 Mode == IOEnv.MODE
 
-CaseOf(ln) == [h |-> ln.case.h, o |-> ln.case.o, kt |-> ln.case.kt]
-GotOf(ln) == [err |-> ln.got.runs[1].err, par |-> ln.got.runs[1].par, app |-> ln.got.app]
+\* kt of the Judges = kind descriptors [t, z] built from the case's member types and origin versions
+CaseOfC(x) == [h |-> x.h, o |-> x.o, kt |-> [k \in 1 .. Len(x.kt) |-> [t |-> x.kt[k], z |-> x.zv[k]]]]
+GotOfG(y) == [err |-> y.runs[1].err, par |-> y.runs[1].par, app |-> y.app]
+CaseOf(ln) == CaseOfC(ln.case)
+GotOf(ln) == GotOfG(ln.got)
 
 \* the first run with every update list put into THE order and the applied states
 \* recomputed from it by the Model's ApplyUpdatesUpTo
@@ -34,12 +37,30 @@ KF11_SameSecondOrder(ln) ==
   /\ KF_SameSecondOrder_Run(g)
   /\ C11Names(c, ResortedGot(g)) = {}
 
-ModelAgrees(ln) ==
-  LET c == CaseOf(ln)  g == GotOf(ln) IN
+ModelAgreesCG(c, g) ==
   IF g.err # "nil" THEN g.err \in CanonErrs(c)
   ELSE /\ CanonErrs(c) = {}
        /\ Resorted(g.par) = CanonPar(c)
        /\ \A i \in 1 .. Len(g.par) : g.app[i] = AppOf(g.par[i].refs, g.par[i].upd, Len(g.app[i]) - 1)
+
+ModelAgrees(ln) == ModelAgreesCG(CaseOf(ln), GotOf(ln))
+
+(* ---- call sequences: [case |-> [steps |-> <<case>>], got |-> <<got>>, crash |-> BOOLEAN] ----
+   All steps of a line were annotated one after the other in one process.  History
+   independence: what a call returns is judged against its own arguments only, so every
+   step must satisfy the C11 Judges whatever was called before it (seq11), and steps
+   with equal arguments must agree like repeated runs (seq12). *)
+Steps(ln) == ln.case.steps
+SeqC11Bad(ln) ==
+  IF ln.crash THEN {"Crash"}
+  ELSE UNION {C11Names(CaseOfC(Steps(ln)[k]), GotOfG(ln.got[k])) : k \in 1 .. Len(Steps(ln))}
+SeqC12Bad(ln) ==
+  IF ln.crash THEN {"Crash"}
+  ELSE (IF \A a, b \in 1 .. Len(Steps(ln)) :
+              Steps(ln)[a] = Steps(ln)[b] => DeterministicRuns(<<ln.got[a].runs[1], ln.got[b].runs[1]>>)
+        THEN {} ELSE {"Deterministic"}) \cup
+       (IF \A k \in 1 .. Len(Steps(ln)) : Sorted(ln.got[k].runs[1]) THEN {} ELSE {"Sorted"})
+SeqModelAgrees(ln) == \A k \in 1 .. Len(Steps(ln)) : ModelAgreesCG(CaseOfC(Steps(ln)[k]), GotOfG(ln.got[k]))
 
 (* ---- C12 ---- *)
 RunsOf(ln) == ln.got.runs
@@ -56,14 +77,22 @@ KF12_SameSecondOrder(ln) ==
   /\ \E r \in 1 .. Len(rs) : KF_SameSecondOrder_Run(rs[r])
   /\ \A a, b \in 1 .. Len(rs) : Resorted(rs[a].par) = Resorted(rs[b].par)
 
-Bad(ln) == IF Mode = "c12" THEN C12Bad(ln) ELSE C11Bad(ln)
-KF(ln) == IF Mode = "c12" THEN (IF KF12_SameSecondOrder(ln) THEN {"KF_SameSecondOrder"} ELSE {})
-          ELSE (IF KF11_SameSecondOrder(ln) THEN {"KF_SameSecondOrder"} ELSE {})
+Bad(ln) == CASE Mode = "c12" -> C12Bad(ln)
+             [] Mode = "seq11" -> SeqC11Bad(ln)
+             [] Mode = "seq12" -> SeqC12Bad(ln)
+             [] OTHER -> C11Bad(ln)
+KF(ln) == CASE Mode = "c12" -> (IF KF12_SameSecondOrder(ln) THEN {"KF_SameSecondOrder"} ELSE {})
+            [] Mode \in {"seq11", "seq12"} -> {}
+            [] OTHER -> (IF KF11_SameSecondOrder(ln) THEN {"KF_SameSecondOrder"} ELSE {})
+Agrees(ln) == CASE Mode = "c12" -> TRUE
+                [] Mode = "seq12" -> TRUE
+                [] Mode = "seq11" -> SeqModelAgrees(ln)
+                [] OTHER -> ModelAgrees(ln)
 
 Report(i) ==
   LET ln == Lines[i]  b == Bad(ln) IN
   IF b # {} THEN PrintT(<<"BAD", ToJson([i |-> i, why |-> b, kf |-> KF(ln)])>>)
-  ELSE IF Mode # "c12" /\ ~ModelAgrees(ln)
+  ELSE IF ~Agrees(ln)
     THEN PrintT(<<"BAD", ToJson([i |-> i, why |-> {"DIVERGENCE"}, kf |-> {}])>>)
     ELSE TRUE
 
